@@ -14,7 +14,9 @@ RULE = ('write programs (the C09 operation space plus raw db.insert / db.execute
         'equal the reference model as of the last COMMIT that had returned; a new Database on the surviving file '
         'must complete a read and a write session. (b) error points: for programs with at most 60 DB-API calls every '
         '(call index, legal fault kind) is re-run; afterwards the dump equals the old committed state or, if commit '
-        'reported success, the new one. Non-trivial = the program committed at least once with two or more accepted '
+        'reported success, the new one; each busy / I/O error point is run a second time with a program that catches the '
+        'error inside the session, carries on with its remaining operations (flushes included) and rolls back at the '
+        'end - nothing of that session may be in the file. Non-trivial = the program committed at least once with two or more accepted '
         'modifications; distinct by (program, knobs, fault position). (c) connection loss: the single-commit session '
         'shapes of the C19 engine run on a stand-in provider that reconnects after the injected connection-lost error, '
         'once per statement and with a failing or repeated reconnect; the file must hold the state before the session '
@@ -73,7 +75,7 @@ def legal(kind, sql):
 def main(tier, seed):
     col = harness.Collector('C17', 'fault_enumeration', tier, seed, RULE)
     deadline = time.time() + harness.budget_s(tier)
-    stats = {'programs': 0, 'programs_fully_enumerated': 0, 'error_point_runs': 0}
+    stats = {'programs': 0, 'programs_fully_enumerated': 0, 'error_point_runs': 0, 'carried_on_runs': 0}
     pending = []
 
     def bases():
@@ -115,6 +117,13 @@ def main(tier, seed):
                                        'retag_label': 'error-injection', 'want_calls': False})
                             pending.append(c2)
                             stats['error_point_runs'] += 1
+                            if fk in ('busy', 'ioerr') and kind != 'commit':
+                                # the program catches the error inside the session, carries on (later flushes
+                                # included) and rolls back in the end: nothing of the session may persist
+                                c3 = dict(c2)
+                                c3['after_fault'] = 'continue'
+                                pending.append(c3)
+                                stats['carried_on_runs'] += 1
         col.extra['crash_and_error_points'] = stats
         from . import reconnect
         reconnect.run(pool, col, tier, seed)
